@@ -16,6 +16,7 @@ import PasfmtModel.Proofs.ParserFullSound
 import PasfmtModel.Proofs.MachineCover
 import PasfmtModel.Proofs.Tree
 import PasfmtModel.Proofs.TreeSorted
+import PasfmtModel.Model.ParserChecks
 
 namespace Pasfmt.Parents
 
@@ -511,16 +512,6 @@ theorem final_parents_contain_token (toks : List (RawKind × Bool)) (o : ParseFu
   exact consolidatePass_parents acc _ o.lines hfinal h1 (directiveLines_passOkW _ _ _)
 
 /-! ## C. the end-of-file line -/
-
-/-- the end-of-file line of a file of `n` tokens -/
-def eofLine (n : Nat) : PLine := { parent := none, level := 0, tokens := [n - 1], ltype := .lEof }
-
-/-- the hypothesis on the lines of one pass: exactly one line has type `Eof`, and it is `eofLine n` -/
-def passEofOk (n : Nat) (ls : List PLine) : Bool := ls.filter (fun l => l.ltype == .lEof) == [eofLine n]
-
-/-- the hypothesis of `final_single_eof_line`: in every pass, the last `next_token` of `parse` met the end-of-file token
-    (it was not consumed earlier) with every context closed -/
-def eofOk (o : ParseFullOut) : Bool := o.passLines.all (passEofOk o.kinds.length)
 
 /-- lines that count as "an end-of-file line": typed `Eof`, or holding the token `e` -/
 def EofIsh (e : Nat) (l : PLine) : Prop := l.ltype = .lEof ∨ e ∈ l.tokens
